@@ -15,7 +15,7 @@
 From Coq Require Import NArith ZArith List Bool Lia ZifyBool ZifyNat ZifyN.
 From Morlock.Model Require Import Bits Attacks Move Position Abs Zobrist Board.
 From Morlock.Spec Require Import Chess Game.
-From Morlock.Lemmas Require Import PositionLemmas BoardHeap1 BoardHeap2 GameLemmas3 GameLemmas4 GameLemmas5.
+From Morlock.Lemmas Require Import PositionLemmas BoardHeap1 BoardHeap2 GameLemmas2 GameLemmas3 GameLemmas4 GameLemmas5.
 Import ListNotations.
 Open Scope N_scope.
 
@@ -61,10 +61,14 @@ Definition gspec (a : aboard) : gstate :=
   | [] => g_start (abs_pos (a_position a)) (color_of (a_turn a)) 0 0
   end.
 
-Lemma ARel_gspec a : a_data a <> [] -> ARel a (gspec a).
+Lemma ARel_gspec z a : AInv z a -> ARel a (gspec a).
 Proof.
-  intros Hne. unfold ARel, gspec. destruct (a_data a) as [|e r] eqn:E; [contradiction|].
-  cbn [states]. cbn [g_pos g_turn g_past g_clock g_fullmove fst snd]. auto.
+  intros [Hh _]. pose proof (hist_nonempty z _ _ Hh) as Hne.
+  pose proof (hist_clk_le z _ _ Hh 0%nat) as Hle.
+  unfold ARel, gspec, a_noprogress. destruct (a_data a) as [|e r] eqn:E; [contradiction|].
+  cbn [states]. cbn [g_pos g_turn g_past g_clock g_fullmove fst snd hd].
+  split; [reflexivity|]. split; [|reflexivity].
+  apply clk_rel_start. exact (Hle e eq_refl).
 Qed.
 
 Lemma gspec_nohash a a' : nohash a = nohash a' -> gspec a = gspec a'.
@@ -130,9 +134,9 @@ Proof.
   - assert (Hne1 : a_data a1 <> []) by (apply (hist_nonempty z1 _ _ (proj1 HI1))).
     assert (Hne2 : a_data a2 <> []) by (apply (hist_nonempty z2 _ _ (proj1 HI2))).
     assert (Hin2 : In m (pseudo_legal_moves (a_position a2) (a_turn a2))) by (rewrite <- Hpos, <- Ht; exact Hin).
-    destruct (apush_step z1 Hz1 potential potential_step a1 (gspec a1) m a1' HI1 (ARel_gspec a1 Hne1) Hin E1)
+    destruct (apush_step z1 Hz1 potential potential_step a1 (gspec a1) m a1' HI1 (ARel_gspec z1 a1 HI1) Hin E1)
       as (HI1' & _ & R1 & _).
-    destruct (apush_step z2 Hz2 potential potential_step a2 (gspec a2) m a2' HI2 (ARel_gspec a2 Hne2) Hin2 E2)
+    destruct (apush_step z2 Hz2 potential potential_step a2 (gspec a2) m a2' HI2 (ARel_gspec z2 a2 HI2) Hin2 E2)
       as (HI2' & _ & R2 & _).
     destruct (apush_true _ _ _ _ E1) as (n1 & P1 & _ & D1 & N1 & T1 & CW1 & CB1 & PL1 & MV1).
     destruct (apush_true _ _ _ _ E2) as (n2 & P2 & _ & D2 & N2 & T2 & CW2 & CB2 & PL2 & MV2).
